@@ -23,6 +23,7 @@ sub_fct_float (Ctx& c, uint64_t b, uint64_t e)
 {
     uint64_t n_in = 0, n_skip = 0, n_negnon = 0, n_negint = 0, n_posnon = 0, n_posint = 0, n_zero = 0, n_den = 0, n_big = 0,
              n_unit = 0;
+    unsigned nf1 = 0, nf2 = 0, nf3 = 0; // at most 64 witnesses per function (zeros: always) are recorded per chunk of 2^18 inputs (a pervasive failure must not cost 2^32 string operations)
     for (uint64_t i = b; i < e; ++i)
     {
         uint32_t u = (uint32_t) i, mag = u & 0x7fffffffu;
@@ -41,9 +42,9 @@ sub_fct_float (Ctx& c, uint64_t b, uint64_t e)
         else if (neg) { if (isint) { k = "negative_integer"; ++n_negint; } else { k = "negative_noninteger"; ++n_negnon; } }
         else { if (isint) { k = "positive_integer"; ++n_posint; } else { k = "positive_noninteger"; ++n_posnon; } }
         ++n_in;
-        if (gf != wf) c.fail (std::string ("floor.float:") + k, i, [&] { return Obj ().kv ("x_bits", hex32 (u)).kv ("x", d).kv ("got", gf).kv ("want", wf).str (); });
-        if (gc != wc) c.fail (std::string ("ceil.float:") + k, i, [&] { return Obj ().kv ("x_bits", hex32 (u)).kv ("x", d).kv ("got", gc).kv ("want", wc).str (); });
-        if (gt != wt) c.fail (std::string ("trunc.float:") + k, i, [&] { return Obj ().kv ("x_bits", hex32 (u)).kv ("x", d).kv ("got", gt).kv ("want", wt).str (); });
+        if (gf != wf && (mag == 0 || nf1++ < 64)) c.fail (std::string ("floor.float:") + k, i, [&] { return Obj ().kv ("x_bits", hex32 (u)).kv ("x", d).kv ("got", gf).kv ("want", wf).str (); });
+        if (gc != wc && (mag == 0 || nf2++ < 64)) c.fail (std::string ("ceil.float:") + k, i, [&] { return Obj ().kv ("x_bits", hex32 (u)).kv ("x", d).kv ("got", gc).kv ("want", wc).str (); });
+        if (gt != wt && (mag == 0 || nf3++ < 64)) c.fail (std::string ("trunc.float:") + k, i, [&] { return Obj ().kv ("x_bits", hex32 (u)).kv ("x", d).kv ("got", gt).kv ("want", wt).str (); });
         if ((u & 0x3ffffu) == 0x2aaabu && ((u >> 23) & 7) == 5)
             c.sample (k, [&] { return Obj ().kv ("x_bits", hex32 (u)).kv ("x", d).kv ("floor", gf).kv ("ceil", gc).kv ("trunc", gt).str (); });
     }
@@ -145,7 +146,7 @@ sub_fct_double (Ctx& c, uint64_t idx)
     }
     c.sample (k, [&] { return Obj ().kv ("x", x).kv ("floor", wf).kv ("ceil", wc).kv ("trunc", wt).str (); });
 }
-MON_SUB_IDX (sub_fct_double, "floor_ceil_trunc_double", 4000000, 400000000)
+MON_SUB_IDX (sub_fct_double, "floor_ceil_trunc_double", 4000000, 1000000000)
     .req ({"near_integer_ulps", "half_integer", "near_2p31", "integer", "tiny", "zero", "uniform", "logscale", "small_integer_pm_tiny",
            "unit_boundary", "power_of_two_ulps", "large_noninteger", "sliver_floor_intermediate_wrap"})
     .over ("doubles |x| < 2^31 from 13 classes (class = idx mod 13): integers +-0..3 ulps, half integers, within 2.5 of +-2^31, tiny, "
@@ -177,6 +178,7 @@ static void
 sub_succ_float (Ctx& c, uint64_t b, uint64_t e)
 {
     uint64_t n_zero = 0, n_den = 0, n_bnd = 0, n_inf = 0, n_nan = 0, n_max = 0, n_pow2 = 0, n_norm = 0;
+    unsigned nfs = 0, nfp = 0, nff = 0; // at most 64 witnesses per function and chunk, except for the rare classes
     for (uint64_t i = b; i < e; ++i)
     {
         uint32_t u = (uint32_t) i, mag = u & 0x7fffffffu;
@@ -195,9 +197,10 @@ sub_succ_float (Ctx& c, uint64_t b, uint64_t e)
         else { k = "normal"; ++n_norm; }
         bool okS = mag >= 0x7f800000u ? gs == ws : same32 (gs, ws);
         bool okP = mag >= 0x7f800000u ? gp == wp : same32 (gp, wp);
-        if (!okS) c.fail (std::string ("succf.float:") + k, i, [&] { return Obj ().kv ("f_bits", hex32 (u)).kv ("got", hex32 (gs)).kv ("want", hex32 (ws)).str (); });
-        if (!okP) c.fail (std::string ("predf.float:") + k, i, [&] { return Obj ().kv ("f_bits", hex32 (u)).kv ("got", hex32 (gp)).kv ("want", hex32 (wp)).str (); });
-        if (gfin != wfin) c.fail (std::string ("finitef.float:") + k, i, [&] { return Obj ().kv ("f_bits", hex32 (u)).kv ("got", gfin).kv ("want", wfin).str (); });
+        bool rare = k[0] != 'n' && k[0] != 'd'; // everything but "normal", "nan", "denormal"
+        if (!okS && (rare || nfs++ < 64)) c.fail (std::string ("succf.float:") + k, i, [&] { return Obj ().kv ("f_bits", hex32 (u)).kv ("got", hex32 (gs)).kv ("want", hex32 (ws)).str (); });
+        if (!okP && (rare || nfp++ < 64)) c.fail (std::string ("predf.float:") + k, i, [&] { return Obj ().kv ("f_bits", hex32 (u)).kv ("got", hex32 (gp)).kv ("want", hex32 (wp)).str (); });
+        if (gfin != wfin && (rare || nff++ < 64)) c.fail (std::string ("finitef.float:") + k, i, [&] { return Obj ().kv ("f_bits", hex32 (u)).kv ("got", gfin).kv ("want", wfin).str (); });
         if ((u & 0xfffffu) == 0x55555u && ((u >> 23) & 15) == 9)
             c.sample (k, [&] { return Obj ().kv ("f_bits", hex32 (u)).kv ("succf", hex32 (gs)).kv ("predf", hex32 (gp)).kv ("finitef", gfin).str (); });
     }
@@ -268,7 +271,7 @@ sub_succ_double (Ctx& c, uint64_t idx)
     if (gfin != wfin) c.fail (std::string ("finited.double:") + k, idx, [&] { return Obj ().kv ("d_bits", hex64 (u)).kv ("got", gfin).kv ("want", wfin).str (); });
     c.sample (k, [&] { return Obj ().kv ("d_bits", hex64 (u)).kv ("succd", hex64 (gs)).kv ("predd", hex64 (gp)).kv ("finited", gfin).str (); });
 }
-MON_SUB_IDX (sub_succ_double, "succd_predd_finited", 3000000, 120000000)
+MON_SUB_IDX (sub_succ_double, "succd_predd_finited", 3000000, 300000000)
     .req ({"zero", "min_subnormal", "subnormal_normal_boundary", "max", "inf", "nan", "binade_boundary", "denormal", "float_valued", "low_word_carry", "random_bits"})
     .over ("doubles from 11 classes (class = idx mod 12, both signs): +-0, smallest subnormals, subnormal/normal boundary, DBL_MAX, inf, NaN payloads, "
            "binade boundaries, denormals, float-valued, all-ones low word, random bit patterns; ordered-integer model of the double line");
@@ -551,12 +554,12 @@ static void sub_scalar_d (Ctx& c, uint64_t i) { sub_scalar<double> (c, i); }
     {"lattice_threshold", "equal_operands", "relative_lattice", "random", "threshold_ulps", "extremes", "ordering", "sign_pairs",        \
      "clamp_below", "clamp_above", "clamp_at_low", "clamp_at_high", "clamp_inside", "clamp_degenerate", "iszero_true", "iszero_false",   \
      "within_tolerance", "outside_tolerance", "exactly_at_threshold", "rel_exactly_at_threshold", "rel_within", "rel_outside"}
-MON_SUB_IDX (sub_scalar_f, "scalar_predicates_float", 2000000, 100000000)
+MON_SUB_IDX (sub_scalar_f, "scalar_predicates_float", 2000000, 250000000)
     .req (SCALAR_REQ)
     .over ("(a,b,t) float triples from 8 classes (idx mod 8): exact 1/8 lattice with the threshold at / one step off |a-b|, equal operands, "
            "relative-error lattice, random, threshold +-2 ulps, extremes (+-max, denormals, zeros), ordering cases, sign pairs; "
            "abs sign cmp cmpt iszero equal clamp equalWithAbsError equalWithRelError vs definitions in long double");
-MON_SUB_IDX (sub_scalar_d, "scalar_predicates_double", 2000000, 100000000)
+MON_SUB_IDX (sub_scalar_d, "scalar_predicates_double", 2000000, 250000000)
     .req (SCALAR_REQ)
     .over ("as scalar_predicates_float for double, definitions evaluated in __float128");
 
@@ -632,7 +635,7 @@ sub_scalar_int (Ctx& c, uint64_t idx)
     else c.cls ("skipped_difference_overflows");
     c.sample (k, [&] { return Obj ().kv ("a", a).kv ("b", b).kv ("t", t).str (); });
 }
-MON_SUB_IDX (sub_scalar_int, "scalar_predicates_int", 1000000, 50000000)
+MON_SUB_IDX (sub_scalar_int, "scalar_predicates_int", 1000000, 150000000)
     .req ({"random", "threshold", "equal_operands", "ordering", "clamp_below", "clamp_above", "clamp_inside_or_at_bound", "within_tolerance", "outside_tolerance", "exactly_at_threshold", "skipped_difference_overflows"})
     .over ("(a,b,t) int triples (boundary values, powers of two +-1, INT_MAX, INT_MIN+1, random) against 64-bit integer definitions; triples whose a-b or -a overflows int are skipped");
 
@@ -640,8 +643,8 @@ MON_SUB_IDX (sub_scalar_int, "scalar_predicates_int", 1000000, 50000000)
 // lerp / ulerp / lerpfactor
 // =====================================================================================
 // Calibrated bounds (worst ratios observed on the pristine tree are recorded as "worst" in the evidence):
-static const double C_LERP = 12.0;       // |lerp - exact| <= C eps (|a||1-t| + |b||t|)
-static const double C_ULERP = 12.0;      // |ulerp - exact| <= C eps (|a| + |b-a||t|)
+static const double C_LERP = 16.0;       // |lerp - exact| <= C eps (|a||1-t| + |b||t|)
+static const double C_ULERP = 16.0;      // |ulerp - exact| <= C eps (|a| + |b-a||t|)
 static const double C_LERPFACTOR = 8.0;  // |lerpfactor(lerp(a,b,t),a,b) - t| <= C eps ((|a|(|1-t|+1) + |b||t| + |m|)/|b-a| + |t|)
 
 template <class T, class Q>
@@ -733,9 +736,9 @@ static void sub_lerp_ff (Ctx& c, uint64_t i) { sub_lerp<float, float> (c, i, "fl
 static void sub_lerp_dd (Ctx& c, uint64_t i) { sub_lerp<double, double> (c, i, "double"); }
 static void sub_lerp_fd (Ctx& c, uint64_t i) { sub_lerp<float, double> (c, i, "float_dbl_t"); }
 #define LERP_REQ {"unit_interval", "extrapolate", "endpoints", "logscale", "exact_lattice", "a_gt_b", "close_endpoints", "opposite_signs", "lerpfactor_inverse_judged"}
-MON_SUB_IDX (sub_lerp_ff, "lerp_ulerp_lerpfactor_float", 2000000, 100000000).req (LERP_REQ).over ("lerp/ulerp<float,float>, lerpfactor<float>: (a,b,t) from 8 classes (idx mod 8) vs long double");
-MON_SUB_IDX (sub_lerp_dd, "lerp_ulerp_lerpfactor_double", 2000000, 100000000).req (LERP_REQ).over ("lerp/ulerp<double,double>, lerpfactor<double>: (a,b,t) from 8 classes vs __float128");
-MON_SUB_IDX (sub_lerp_fd, "lerp_ulerp_float_double_t", 1000000, 50000000).req (LERP_REQ).over ("lerp/ulerp<float,double> (parameter of a wider type) vs long double");
+MON_SUB_IDX (sub_lerp_ff, "lerp_ulerp_lerpfactor_float", 2000000, 250000000).req (LERP_REQ).over ("lerp/ulerp<float,float>, lerpfactor<float>: (a,b,t) from 8 classes (idx mod 8) vs long double");
+MON_SUB_IDX (sub_lerp_dd, "lerp_ulerp_lerpfactor_double", 2000000, 250000000).req (LERP_REQ).over ("lerp/ulerp<double,double>, lerpfactor<double>: (a,b,t) from 8 classes vs __float128");
+MON_SUB_IDX (sub_lerp_fd, "lerp_ulerp_float_double_t", 1000000, 100000000).req (LERP_REQ).over ("lerp/ulerp<float,double> (parameter of a wider type) vs long double");
 
 // ---- ulerp on unsigned (its purpose): exact dyadic lattice
 static void
@@ -762,12 +765,12 @@ sub_ulerp_unsigned (Ctx& c, uint64_t idx)
     if (gf != w16) c.fail (std::string ("ulerp.unsigned_float_t:") + (a16 > b16 ? "a_gt_b" : "a_le_b"), idx, [&] { return Obj ().kv ("a", a16).kv ("b", b16).kv ("t", t).kv ("got", gf).kv ("want", w16).str (); });
     c.sample (a > b ? "a_gt_b" : "a_le_b", [&] { return Obj ().kv ("a", a).kv ("b", b).kv ("t", t).kv ("ulerp", g).str (); });
 }
-MON_SUB_IDX (sub_ulerp_unsigned, "ulerp_unsigned", 500000, 20000000)
+MON_SUB_IDX (sub_ulerp_unsigned, "ulerp_unsigned", 500000, 50000000)
     .req ({"a_gt_b", "a_lt_b", "a_eq_b", "t=0", "t=1", "t_inside"})
     .over ("ulerp<unsigned,double>(a,b,k/256) with a,b < 2^24 and ulerp<unsigned,float> with a,b < 2^16: every intermediate exact, compared with integer arithmetic");
 
 // ---- lerpfactor: definition and overflow guard
-static const double C_LF_DEF = 16.0; // |lerpfactor - (m-a)/(b-a)| <= C eps |quotient|
+static const double C_LF_DEF = 16.0; // |lerpfactor - (m-a)/(b-a)| <= C eps |quotient| + denorm_min
 
 template <class T>
 static void
@@ -838,12 +841,13 @@ sub_lerpfactor (Ctx& c, uint64_t idx)
     {
         c.cls ("quotient_required");
         // m-a and b-a are rounded once each (relative eps, exact when subnormal), the division once
-        H tol = H (C_LF_DEF * eps) * aq + H (2) * H (L::denorm_min ());
-        // (a subnormal m-a or b-a is exact: IEEE sums that land in the subnormal range do not round)
-        H err = habs ((H) g - q);
-        double ratio = (double) (err / tol) * C_LF_DEF;
+        // (a subnormal m-a or b-a is exact: IEEE sums that land in the subnormal range do not round);
+        // a quotient that underflows is rounded absolutely, by at most half of denorm_min: that part is not calibrated
+        H err = habs ((H) g - q) - H (L::denorm_min ());
+        if (err < 0) err = 0;
+        double ratio = err == 0 ? 0.0 : (double) (err / (H (eps) * aq));
         c.worst (ty == "double" ? "lerpfactor_def.double.err/(eps*|q|)" : "lerpfactor_def.float.err/(eps*|q|)", ratio, idx, desc);
-        if (!(err <= tol)) c.fail ("lerpfactor." + ty + ":" + k, idx, [&] { return Obj ().kv ("m", (double) m).kv ("a", (double) a).kv ("b", (double) b).kv ("got", (double) g).kv ("want", (double) q).kv ("ratio", ratio).str (); });
+        if (!(ratio <= C_LF_DEF)) c.fail ("lerpfactor." + ty + ":" + k, idx, [&] { return Obj ().kv ("m", (double) m).kv ("a", (double) a).kv ("b", (double) b).kv ("got", (double) g).kv ("want", (double) q).kv ("ratio", ratio).str (); });
         if (idx % 8 == 6 && !((H) g == q) && (H) (T) q == q) c.fail ("lerpfactor." + ty + ":exact_lattice_inexact", idx, desc);
     }
     else
@@ -857,7 +861,7 @@ sub_lerpfactor (Ctx& c, uint64_t idx)
 static void sub_lerpfactor_f (Ctx& c, uint64_t i) { sub_lerpfactor<float> (c, i); }
 static void sub_lerpfactor_d (Ctx& c, uint64_t i) { sub_lerpfactor<double> (c, i); }
 #define LF_REQ {"a_eq_b", "quotient_overflows", "small_d_representable", "d_gt_1", "quotient_near_max", "denormal_d", "exact_lattice", "random", "returns_zero_required", "quotient_required"}
-MON_SUB_IDX (sub_lerpfactor_f, "lerpfactor_guard_float", 1000000, 50000000).req (LF_REQ).over ("lerpfactor<float>(m,a,b), operands <= max/4: a==b, tiny/denormal b-a with overflowing and with representable quotient, quotient within 4x of max, |b-a|>1, lattice; result must be finite, 0 when (m-a)/(b-a) overflows, the quotient otherwise");
-MON_SUB_IDX (sub_lerpfactor_d, "lerpfactor_guard_double", 1000000, 50000000).req (LF_REQ).over ("as lerpfactor_guard_float for double");
+MON_SUB_IDX (sub_lerpfactor_f, "lerpfactor_guard_float", 1000000, 150000000).req (LF_REQ).over ("lerpfactor<float>(m,a,b), operands <= max/4: a==b, tiny/denormal b-a with overflowing and with representable quotient, quotient within 4x of max, |b-a|>1, lattice; result must be finite, 0 when (m-a)/(b-a) overflows, the quotient otherwise");
+MON_SUB_IDX (sub_lerpfactor_d, "lerpfactor_guard_double", 1000000, 150000000).req (LF_REQ).over ("as lerpfactor_guard_float for double");
 
 MON_MAIN ("c17_utils")
